@@ -2,6 +2,7 @@ package storage
 
 import (
 	"bytes"
+	"sort"
 	"sync"
 )
 
@@ -203,6 +204,45 @@ func (s *State) IterateRange(start, end []byte, ascending bool, fn func(key, val
 		return false
 	})
 	//todo: we can't get the key for anything that's only in the cache,
+	for _, key := range keys {
+		value, err := s.Get(key)
+		if err != nil || value == nil {
+			// nil: the key was deleted in this block or session
+			continue
+		}
+		stop := fn(key, value)
+		if stop {
+			return true
+		}
+	}
+	return true
+}
+
+// IterateRangeUncommitted is IterateRange which also visits the keys of the range that were
+// written in the current block or session and are not committed yet, in the same key order
+func (s *State) IterateRangeUncommitted(start, end []byte, ascending bool, fn func(key, value []byte) bool) (stop bool) {
+	keys := make([]StoreKey, 0, 100)
+	seen := make(map[string]bool)
+	collect := func(key, value []byte) bool {
+		inRange := (start == nil || bytes.Compare(start, key) <= 0) && (end == nil || bytes.Compare(key, end) < 0)
+		if inRange && !seen[string(key)] {
+			seen[string(key)] = true
+			keys = append(keys, key)
+		}
+		return false
+	}
+	s.cs.IterateRange(start, end, ascending, collect)
+	s.cache.GetIterable().Iterate(collect)
+	if s.txSession != nil {
+		s.txSession.GetIterable().Iterate(collect)
+	}
+	sort.Slice(keys, func(i, j int) bool {
+		if ascending {
+			return bytes.Compare(keys[i], keys[j]) < 0
+		}
+		return bytes.Compare(keys[i], keys[j]) > 0
+	})
+
 	for _, key := range keys {
 		value, err := s.Get(key)
 		if err != nil || value == nil {
